@@ -30,6 +30,9 @@ pub enum Routed {
     Dropped,
     /// must end the connection with an error without reaching the shim
     Fatal,
+    /// must not reach the shim (an execution that reuses types although none were ever bound
+    /// cannot be decoded); whether the connection ends or an ERR is sent is not specified
+    Refused,
 }
 
 /// The value a client encoded for one parameter, as the shim must see it.
@@ -197,7 +200,7 @@ impl Registry {
                     }
                     let types = match &s.types {
                         Some(t) => t.clone(),
-                        None => return Routed::Fatal,
+                        None => return Routed::Refused,
                     };
                     for i in 0..n {
                         let (ty, uns) = types[i];
@@ -258,7 +261,7 @@ pub fn expect_for(cmds: &[Vec<u8>]) -> Expect {
                     answered: vec![i],
                 }
             }
-            Routed::Fatal => {
+            Routed::Fatal | Routed::Refused => {
                 return Expect {
                     logs: vec![log],
                     ok: vec![false],
